@@ -302,6 +302,8 @@ def evaluate__substring(self: XPathFunction, context: ta.ContextType = None) -> 
         start = self.get_argument(context, index=1, required=True)
         if isinstance(start, UntypedAtomic):
             start = float(start)  # function conversion rules
+        elif isinstance(start, bool):
+            raise TypeError('an xs:boolean is not a number')
         if isinstance(start, float) and (math.isnan(start) or math.isinf(start)):
             return ''
     except (TypeError, ValueError):
@@ -319,6 +321,8 @@ def evaluate__substring(self: XPathFunction, context: ta.ContextType = None) -> 
             length = self.get_argument(context, index=2, required=True)
             if isinstance(length, UntypedAtomic):
                 length = float(length)  # function conversion rules
+            elif isinstance(length, bool):
+                raise TypeError('an xs:boolean is not a number')
             if isinstance(length, float) and math.isnan(length) or length <= 0:
                 return ''
         except (TypeError, ValueError):
@@ -454,7 +458,9 @@ def evaluate__sum(self: XPathFunction, context: ta.ContextType = None) -> ta.One
         zero = 0 if len(self) == 1 else self.get_argument(context, index=1)
         return [] if zero is None else zero
 
-    if all(isinstance(x, (decimal.Decimal, int)) for x in values):
+    if any(isinstance(x, bool) for x in values):
+        raise self.error('FORG0006', 'cannot apply fn:sum() to xs:boolean values')
+    elif all(isinstance(x, (decimal.Decimal, int)) for x in values):
         result = sum(values) if len(values) > 1 else values[0]
     elif all(isinstance(x, DayTimeDuration) for x in values) or \
             all(isinstance(x, YearMonthDuration) for x in values):
@@ -501,7 +507,7 @@ def evaluate__ceiling_and_floor_functions(self: XPathFunction, context: ta.Conte
         arg = self.number_value(arg)
 
     try:
-        if not isinstance(arg, (int, float, decimal.Decimal)):
+        if not isinstance(arg, (int, float, decimal.Decimal)) or isinstance(arg, bool):
             raise TypeError(f"must be real number, not {type(arg).__name__!r}")
         elif isinstance(arg, float) and (math.isnan(arg) or math.isinf(arg)):
             return arg
@@ -543,7 +549,7 @@ def evaluate__round(self: XPathFunction, context: ta.ContextType = None) -> ta.O
         raise self.error('XPTY0004')
 
     try:
-        if not isinstance(arg, (int, float, decimal.Decimal)):
+        if not isinstance(arg, (int, float, decimal.Decimal)) or isinstance(arg, bool):
             raise TypeError(f"must be real number, not {type(arg).__name__!r}")
 
         # Decimal.to_integral_value() is not limited by the precision of the context
